@@ -845,3 +845,723 @@ Proof.
 Qed.
 
 End Mid2.
+
+(* ------------------------------------------------------------------ *)
+(* Part R5: ProcessChanSyncMsg, the re-signs, and XCut                 *)
+
+Lemma nrev_diff_updates S x : nrev (diff_updates S x) = 0.
+Proof. unfold diff_updates. destruct (rTip x); [apply nrev_map|reflexivity]. Qed.
+
+Lemma nrev_sigpart S a b : nrev (sigpart S a b) = 0.
+Proof.
+  unfold sigpart. destruct (rTip a); [|reflexivity]. destruct (c1b a b); [|reflexivity].
+  rewrite nrev_app, nrev_diff_updates. reflexivity.
+Qed.
+
+Lemma nrev_mid_q f sp rp : nrev (mid_q f sp rp) = nrev sp + nrev rp.
+Proof. unfold mid_q. destruct f; rewrite nrev_app; lia. Qed.
+
+Lemma nrev_revpart a b : nrev (revpart a b) = if owes_rev a b then 1 else 0.
+Proof. unfold revpart. destruct (owes_rev a b); reflexivity. Qed.
+
+Section Cut.
+Variable c : cfg.
+
+Lemma mid_xdir S H xS xH qS qH fS : H = negb S ->
+  InvDir c S H xS xH qS qH -> InvDir c H S xH xS qH qS -> XDir S H xS xH qS fS ->
+  XDir S H (restore S xS) (restore H xH)
+    (mid_q fS (sigpart S (restore S xS) (restore H xH)) (revpart (restore S xS) (restore H xH))) fS.
+Proof.
+  intros HSH I1 I2 X. pose proof X as [d f e1 e2].
+  destruct I1 as [j1 an nd wa wb gt gl bl m1 ph]. destruct I2 as [j1' an' nd' wa' wb' gt' gl' bl' m1' ph'].
+  pose proof (phase_owes_rev c _ _ _ _ _ _ ph') as OR.
+  pose proof (phase_nrev_le c _ _ _ _ _ _ ph') as NL.
+  constructor.
+  - unfold restore. psimpl. intros; discriminate.
+  - intros k HE HN HC. rewrite nrev_mid_q, nrev_sigpart, nrev_revpart in HN.
+    unfold restore, owes_rev in *. cbn [own peer lTail lTip rTail rTip] in *.
+    fold (owes_rev xS xH) in HN, OR.
+    assert (N1 : nrev qS = 1).
+    { destruct OR as [[N0 O0]|[N1 O1]]; [rewrite O0 in HN; discriminate|exact N1]. }
+    assert (T : lTail xH = rTail xS).
+    { ph_cases ph; try congruence. exfalso. destruct G as [_ [_ [Hh _]]].
+      assert (k = kp) by congruence. subst k. rewrite LT in HC. lia. }
+    pose proof (cl1_K c _ _ _ _ _ _ _ _ ph ph' X HE T) as K.
+    rewrite N1 in K. exact K.
+  - unfold restore. psimpl. intros k HE. rewrite HE. cbn [tip_of].
+    rewrite firstn_firstn, Nat.min_id. apply e1. exact HE.
+  - unfold restore. psimpl. rewrite skipn_all2; [cbn; lia|]. rewrite firstn_length. lia.
+Qed.
+
+(* heights seen by the two decision ladders *)
+Definition hts (xS xH : party) : Prop :=
+  (rTip xS = None /\ c_h (lTail xH) = c_h (rTail xS)) \/
+  (exists k, rTip xS = Some k /\ c_h k = (c_h (rTail xS) + 1)%Z /\
+             (c_h (lTail xH) = c_h (rTail xS) \/ c_h (lTail xH) = c_h k)).
+
+Lemma phase_heights S H xS xH qS qH : phase c S H xS xH qS qH -> hts xS xH.
+Proof. unfold hts.
+  intros ph. ph_cases ph.
+  - left. split; [exact R|congruence].
+  - right. exists kp. destruct G as [_ [_ [Hh _]]]. split; [exact R|]. split; [exact Hh|]. left. congruence.
+  - right. exists kp. destruct G as [_ [_ [Hh _]]]. split; [exact R|]. split; [exact Hh|]. left. congruence.
+  - right. exists kp. destruct G as [_ [_ [Hh _]]]. split; [exact R|]. split; [exact Hh|]. right. congruence.
+Qed.
+
+Lemma psync_eval S H xS xH fS :
+  hts xS xH -> hts xH xS ->
+  let a := restore S xS in let b := restore H xH in
+  process_sync c S a fS (c_h (lTail b) + 1)%Z (c_h (rTail b)) =
+    if owes_rev a b then
+      if owes_commit S a then
+        match do_sign c S a with
+        | (Ok, a', Some m) => (SOk, a', mid_q fS (sigpart S a b) [MRev] ++ [m], true)
+        | (ErrNoWindow, _, _) => (SOk, a, mid_q fS (sigpart S a b) [MRev], false)
+        | _ => (SErrSign, a, [], false)
+        end
+      else (SOk, a, mid_q fS (sigpart S a b) [MRev], false)
+    else (SOk, a, mid_q fS (sigpart S a b) [], false).
+Proof.
+  intros HS HH a b. unfold hts in HS, HH.
+  assert (La : lTail a = lTail xS) by reflexivity.
+  assert (Ra : rTail a = rTail xS) by reflexivity.
+  assert (Ta : rTip a = rTip xS) by reflexivity.
+  assert (Lb : lTail b = lTail xH) by reflexivity.
+  assert (Rb : rTail b = rTail xH) by reflexivity.
+  assert (HO : (c_h (rTail xH) = c_h (lTail xS) /\ owes_rev a b = false) \/
+               ((c_h (rTail xH) + 1)%Z = c_h (lTail xS) /\ owes_rev a b = true)).
+  { unfold owes_rev. rewrite Rb, La.
+    destruct HH as [[_ E]|[k' [_ [Hh [E|E]]]]].
+    - left. split; [congruence|]. apply Z.eqb_neq. lia.
+    - left. split; [congruence|]. apply Z.eqb_neq. lia.
+    - right. split; [lia|]. apply Z.eqb_eq. lia. }
+  unfold process_sync, sigpart, c1b. cbv zeta. rewrite La, Ra, Ta, Lb, Rb.
+  destruct HO as [[E O]|[E O]]; rewrite O.
+  - (* no revocation owed *)
+    destruct (Z.ltb_spec (c_h (lTail xS)) (c_h (rTail xH))); [lia|].
+    destruct (Z.ltb_spec (c_h (rTail xH) + 1) (c_h (lTail xS))); [lia|].
+    destruct (Z.eqb_spec (c_h (rTail xH)) (c_h (lTail xS))); [|lia].
+    destruct HS as [[R T]|[k [R [Hh [T|T]]]]]; rewrite R; cbn [tip_of].
+    + destruct (Z.ltb_spec (c_h (rTail xS) + 1) (c_h (lTail xH) + 1)); [lia|].
+      destruct (Z.leb_spec (c_h (lTail xH) + 1) (c_h (rTail xS))); [lia|].
+      destruct (Z.eqb_spec (c_h (lTail xH) + 1) (c_h (rTail xS) + 1)); [|lia].
+      rewrite mid_q_nil. reflexivity.
+    + destruct (Z.ltb_spec (c_h k + 1) (c_h (lTail xH) + 1)); [lia|].
+      destruct (Z.leb_spec (c_h (lTail xH) + 1) (c_h (rTail xS))); [lia|].
+      destruct (Z.eqb_spec (c_h (lTail xH) + 1) (c_h k + 1)); [lia|].
+      destruct (Z.eqb_spec (c_h (lTail xH) + 1) (c_h k)); [|lia].
+      destruct (Z.eqb_spec (c_h (lTail xH)) (c_h (rTail xS))); [|lia].
+      unfold mid_q. destruct fS; rewrite ?app_nil_r; reflexivity.
+    + destruct (Z.ltb_spec (c_h k + 1) (c_h (lTail xH) + 1)); [lia|].
+      destruct (Z.leb_spec (c_h (lTail xH) + 1) (c_h (rTail xS))); [lia|].
+      destruct (Z.eqb_spec (c_h (lTail xH) + 1) (c_h k + 1)); [|lia].
+      destruct (Z.eqb_spec (c_h (lTail xH)) (c_h (rTail xS))); [lia|].
+      rewrite mid_q_nil. reflexivity.
+  - (* a revocation is owed *)
+    destruct (Z.ltb_spec (c_h (lTail xS)) (c_h (rTail xH))); [lia|].
+    destruct (Z.ltb_spec (c_h (rTail xH) + 1) (c_h (lTail xS))); [lia|].
+    destruct (Z.eqb_spec (c_h (rTail xH)) (c_h (lTail xS))); [lia|].
+    assert (DS : forall a' m, do_sign c S a = (Ok, a', Some m) -> rTip xS = None).
+    { intros a' m HD. apply do_sign_ok in HD. destruct HD as [k [HR _]]. exact HR. }
+    destruct HS as [[R T]|[k [R [Hh [T|T]]]]]; rewrite R; cbn [tip_of].
+    + destruct (Z.ltb_spec (c_h (rTail xS) + 1) (c_h (lTail xH) + 1)); [lia|].
+      destruct (Z.leb_spec (c_h (lTail xH) + 1) (c_h (rTail xS))); [lia|].
+      destruct (Z.eqb_spec (c_h (lTail xH) + 1) (c_h (rTail xS) + 1)); [|lia].
+      rewrite mid_q_nil.
+      destruct (owes_commit S a); [|reflexivity].
+      destruct (do_sign c S a) as [[r a'] [m|]] eqn:HD; destruct r; try reflexivity.
+    + destruct (Z.ltb_spec (c_h k + 1) (c_h (lTail xH) + 1)); [lia|].
+      destruct (Z.leb_spec (c_h (lTail xH) + 1) (c_h (rTail xS))); [lia|].
+      destruct (Z.eqb_spec (c_h (lTail xH) + 1) (c_h k + 1)); [lia|].
+      destruct (Z.eqb_spec (c_h (lTail xH) + 1) (c_h k)); [|lia].
+      destruct (Z.eqb_spec (c_h (lTail xH)) (c_h (rTail xS))); [|lia].
+      destruct (owes_commit S a).
+      * destruct (do_sign c S a) as [[r a'] [m|]] eqn:HD; destruct r; try reflexivity.
+        exfalso. specialize (DS _ _ eq_refl). congruence.
+      * reflexivity.
+    + destruct (Z.ltb_spec (c_h k + 1) (c_h (lTail xH) + 1)); [lia|].
+      destruct (Z.leb_spec (c_h (lTail xH) + 1) (c_h (rTail xS))); [lia|].
+      destruct (Z.eqb_spec (c_h (lTail xH) + 1) (c_h k + 1)); [|lia].
+      destruct (Z.eqb_spec (c_h (lTail xH)) (c_h (rTail xS))); [lia|].
+      rewrite mid_q_nil.
+      destruct (owes_commit S a); [|reflexivity].
+      destruct (do_sign c S a) as [[r a'] [m|]] eqn:HD; destruct r; try reflexivity.
+Qed.
+
+(* the three possible outcomes of ProcessChanSyncMsg for one party *)
+Lemma psync_cases S H xS xH fS :
+  hts xS xH -> hts xH xS ->
+  let a := restore S xS in let b := restore H xH in
+  let Q := mid_q fS (sigpart S a b) (revpart a b) in
+  let r := process_sync c S a fS (c_h (lTail b) + 1)%Z (c_h (rTail b)) in
+  r = (SOk, a, Q, false) \/
+  (exists a' m, do_sign c S a = (Ok, a', Some m) /\ r = (SOk, a', Q ++ [m], true)) \/
+  ((exists a' m, do_sign c S a = (ErrSanity, a', m)) /\ r = (SErrSign, a, [], false)).
+Proof.
+  intros ph ph'. cbv zeta. pose proof (psync_eval S H _ _ fS ph ph') as E. cbv zeta in E.
+  rewrite E. clear E. set (a := restore S xS). set (b := restore H xH).
+  unfold revpart. destruct (owes_rev a b); [|left; reflexivity].
+  destruct (owes_commit S a); [|left; reflexivity].
+  destruct (do_sign c S a) as [[r a'] m] eqn:HD.
+  assert (HR : r = Ok \/ r = ErrNoWindow \/ r = ErrSanity).
+  { unfold do_sign in HD. destruct (rTip a); [inversion HD; auto|]. cbv zeta in HD.
+    destruct (commit_of _ _ _ _ _ _ _); inversion HD; auto. }
+  destruct HR as [ -> | [ -> | -> ] ].
+  - destruct m as [m|].
+    + right. left. exists a', m. split; reflexivity.
+    + exfalso. unfold do_sign in HD. destruct (rTip a); [discriminate|]. cbv zeta in HD.
+      destruct (commit_of _ _ _ _ _ _ _); discriminate.
+  - left. reflexivity.
+  - right. right. split; [exists a', m; reflexivity|]. destruct m; reflexivity.
+Qed.
+
+Lemma xstep_deliver s p :
+  snd (xstep c s (XOp (ODeliver p))) = mkX (snd (step c (xs s) (ODeliver p))) (lwrA s) (lwrB s).
+Proof. unfold xstep. destruct (step c (xs s) (ODeliver p)) as [r s']. destruct r; reflexivity. Qed.
+
+Lemma xinv_deliver_n p n : forall s fa fb,
+  XInv c (mkX s fa fb) -> deliver_n_ok c s p n = true -> XInv c (mkX (deliver_n c s p n) fa fb).
+Proof.
+  induction n as [|n IH]; intros s fa fb HX HD; cbn [deliver_n deliver_n_ok] in *; [exact HX|].
+  apply andb_true_iff in HD. destruct HD as [HD1 HD2].
+  apply IH; [|exact HD2].
+  pose proof (xinv_deliver c (mkX s fa fb) p HX HD1) as HX'.
+  rewrite xstep_deliver in HX'. exact HX'.
+Qed.
+
+Lemma xstep_sign_ok M p x' m :
+  do_sign c p (get (xs M) p) = (Ok, x', Some m) ->
+  snd (xstep c M (XOp (OSign p))) =
+  set_lwr (mkX (set_outq (set (xs M) p x') p (outq (xs M) p ++ [m])) (lwrA M) (lwrB M)) p false.
+Proof. intros HD. unfold xstep, step. rewrite HD. reflexivity. Qed.
+
+(* the state after losing the queues, restoring both parties and retransmitting
+   (before any re-signing) satisfies the invariant again *)
+Lemma xinv_mid s1 fa fb : XInv c (mkX s1 fa fb) ->
+  let a := restore true (pA s1) in let b := restore false (pB s1) in
+  XInv c (mkX (mkSys a b (mid_q fa (sigpart true a b) (revpart a b))
+                         (mid_q fb (sigpart false b a) (revpart b a))) fa fb).
+Proof.
+  intros [[I1 I2] [XA XB]] a b. cbn [xs lwrA lwrB] in *.
+  split; [split|split]; cbn [xs lwrA lwrB pA pB qAB qBA].
+  - eapply (mid_dir c true false); try eassumption; [reflexivity|].
+    rewrite nrev_mid_q, nrev_sigpart. reflexivity.
+  - eapply (mid_dir c false true); try eassumption; [reflexivity|].
+    rewrite nrev_mid_q, nrev_sigpart. reflexivity.
+  - eapply (mid_xdir true false); try eassumption; reflexivity.
+  - eapply (mid_xdir false true); try eassumption; reflexivity.
+Qed.
+
+Theorem xcut_inv s ka kb : XInv c s -> disciplined c s (XCut ka kb) = true ->
+  fst (xstep c s (XCut ka kb)) <> ErrSync /\
+  (fst (xstep c s (XCut ka kb)) = Ok -> XInv c (snd (xstep c s (XCut ka kb)))).
+Proof.
+  intros HX HD. cbn [disciplined] in HD. apply andb_true_iff in HD. destruct HD as [HD1 HD2].
+  assert (HX0 : XInv c (mkX (xs s) (lwrA s) (lwrB s))) by (destruct s; exact HX).
+  pose proof (xinv_deliver_n true ka _ _ _ HX0 HD1) as HX1.
+  pose proof (xinv_deliver_n false kb _ _ _ HX1 HD2) as HX2.
+  unfold xstep.
+  set (s1 := deliver_n c (deliver_n c (xs s) true ka) false kb) in *.
+  pose proof (xinv_mid _ _ _ HX2) as HM. cbv zeta in HM.
+  set (a := restore true (pA s1)) in *. set (b := restore false (pB s1)) in *.
+  cbn [sync_msg].
+  destruct HX2 as [[I1 I2] _]. cbn [xs] in I1, I2.
+  pose proof (phase_heights _ _ _ _ _ _ (i_ph _ _ _ _ _ _ _ I1)) as HA.
+  pose proof (phase_heights _ _ _ _ _ _ (i_ph _ _ _ _ _ _ _ I2)) as HB.
+  pose proof (psync_cases true false _ _ (lwrA s) HA HB) as CA.
+  pose proof (psync_cases false true _ _ (lwrB s) HB HA) as CB.
+  cbv zeta in CA, CB. fold a b in CA, CB.
+  set (QA := mid_q (lwrA s) (sigpart true a b) (revpart a b)) in *.
+  set (QB := mid_q (lwrB s) (sigpart false b a) (revpart b a)) in *.
+  set (M := mkX (mkSys a b QA QB) (lwrA s) (lwrB s)) in *.
+  destruct CA as [CA|[[a' [ma [DA CA]]]|[_ CA]]]; rewrite CA;
+  destruct CB as [CB|[[b' [mb [DB CB]]]|[_ CB]]]; rewrite CB; cbn [fst snd];
+    (split; [discriminate|]); intros HOk; try discriminate.
+  - exact HM.
+  - pose proof (xinv_sign c M false HM) as HS.
+    rewrite (xstep_sign_ok M false b' mb DB) in HS. exact HS.
+  - pose proof (xinv_sign c M true HM) as HS.
+    rewrite (xstep_sign_ok M true a' ma DA) in HS. exact HS.
+  - pose proof (xinv_sign c M true HM) as HS.
+    rewrite (xstep_sign_ok M true a' ma DA) in HS.
+    match type of HS with XInv c ?M1 => pose proof (xinv_sign c M1 false HS) as HS2;
+      rewrite (xstep_sign_ok M1 false b' mb DB) in HS2 end.
+    exact HS2.
+Qed.
+
+End Cut.
+
+(* ------------------------------------------------------------------ *)
+(* Part R6: statements used by Props_C02.v / Props_C03.v               *)
+
+Lemma xinv_xstep c s o : XInv c s -> disciplined c s o = true ->
+  (forall ka kb, o = XCut ka kb -> fst (xstep c s o) = Ok) ->
+  XInv c (snd (xstep c s o)).
+Proof.
+  intros HX HD HOk. destruct o as [o|ka kb].
+  - destruct o as [p u|p|p|p].
+    + apply xinv_send. exact HX.
+    + apply xinv_sign. exact HX.
+    + apply xinv_revoke. exact HX.
+    + apply xinv_deliver; [exact HX|exact HD].
+  - apply (xcut_inv c s ka kb HX HD). apply (HOk ka kb). reflexivity.
+Qed.
+
+Lemma dreachable_ok_xinv c s : dreachable_ok c s -> XInv c s.
+Proof.
+  induction 1 as [s0 H0|s o HR IH HD HOk]; [apply xinit_inv; exact H0|].
+  apply xinv_xstep; assumption.
+Qed.
+
+Lemma resync_inv c s ka kb : dreachable_ok c s -> disciplined c s (XCut ka kb) = true ->
+  fst (xstep c s (XCut ka kb)) = Ok -> Inv c (xs (snd (xstep c s (XCut ka kb)))).
+Proof.
+  intros HR HD HOk. apply dreachable_ok_xinv in HR.
+  destruct (xcut_inv c s ka kb HR HD) as [_ HI]. apply HI in HOk. destruct HOk as [HI' _]. exact HI'.
+Qed.
+
+Lemma no_sync_error c s ka kb : dreachable_ok c s -> disciplined c s (XCut ka kb) = true ->
+  fst (xstep c s (XCut ka kb)) <> ErrSync.
+Proof.
+  intros HR HD. apply dreachable_ok_xinv in HR. apply (xcut_inv c s ka kb HR HD).
+Qed.
+
+Lemma dreachable_ok_agreement c s : dreachable_ok c s -> forall p k q,
+  outq (xs s) (negb p) = MSig k :: q -> fst (step c (xs s) (ODeliver p)) = Ok.
+Proof. intros HR. apply dreachable_ok_xinv in HR. destruct HR as [HI _]. apply inv_agreement. exact HI. Qed.
+
+(* ---------- C02: the commitment a restarted node would broadcast ---------- *)
+Lemma revoke_advances c s p : Inv c s -> fst (step c s (ORevoke p)) = Ok ->
+  c_h (lTail (get (snd (step c s (ORevoke p))) p)) = (c_h (lTail (get s p)) + 1)%Z.
+Proof.
+  intros HI HOk. destruct (inv_get c s HI p) as [_ I2].
+  destruct I2 as [j1' an' nd' wa' wb' gt' gl' bl' m1' ph'].
+  unfold step in *. unfold do_revoke in *.
+  destruct (lTip (get s p)) as [k|] eqn:HL; [|discriminate]. cbn [snd].
+  assert (HK : c_h k = (c_h (lTail (get s p)) + 1)%Z).
+  { destruct ph' as [R L NS NR E|kp R G SA L NR E|kp R G NS L NR E B|kp R G NS L LT NR B];
+      try congruence.
+    assert (kp = k) by congruence. subst kp. destruct G as [_ [_ [Hh _]]]. rewrite Hh, E. reflexivity. }
+  destruct p; cbn [get set set_outq pA pB lTail]; exact HK.
+Qed.
+
+Lemma restore_keeps_tail p x : lTail (restore p x) = lTail x.
+Proof. reflexivity. Qed.
+
+Lemma tail_height_monotone c s o p : Inv c s ->
+  (c_h (lTail (get s p)) <= c_h (lTail (get (snd (step c s o)) p)))%Z.
+Proof.
+  intros HI. destruct o as [q u|q|q|q].
+  - unfold step. destruct (upd_enabled c q (get s q) u); [|cbn [snd]; lia].
+    destruct p, q; cbn [snd get set set_outq pA pB lTail]; lia.
+  - unfold step. destruct (do_sign c q (get s q)) as [[r x'] [m|]] eqn:HD;
+      destruct r; cbn [snd]; try lia.
+    apply do_sign_ok in HD. destruct HD as [k [_ [_ [-> _]]]].
+    destruct p, q; cbn [snd get set set_outq pA pB lTail set_rTip]; lia.
+  - destruct (Bool.bool_dec p q) as [->|NE].
+    + destruct (fst (step c s (ORevoke q))) eqn:HR;
+        try (pose proof (revoke_advances c s q HI HR); lia);
+        unfold step in *; unfold do_revoke in *; destruct (lTip (get s q)); cbn [fst snd] in *;
+        try discriminate; lia.
+    + unfold step. unfold do_revoke. destruct (lTip (get s q)); cbn [snd]; [|lia].
+      destruct p, q; try congruence; cbn [snd get set set_outq pA pB lTail]; lia.
+  - unfold step. destruct (outq s (negb q)) as [|m r]; [cbn [snd]; lia|].
+    destruct m as [u|k|].
+    + destruct p, q; cbn [snd get set set_outq pA pB lTail negb]; lia.
+    + unfold do_recv_sig. cbv zeta.
+      destruct (commit_of _ _ _ _ _ _ _) as [k'|]; [|cbn [snd]; lia].
+      destruct (commit_eqb k' k); cbn [snd]; [|lia].
+      destruct p, q; cbn [snd get set set_outq pA pB lTail negb]; lia.
+    + unfold do_recv_rev. destruct (rTip (get s q)); cbn [snd]; [|lia].
+      destruct p, q; cbn [snd get set set_outq pA pB lTail negb]; lia.
+Qed.
+
+(* a reconnect that fails with ErrSanity fails because one side's re-signature
+   covers a well-formed but unaffordable cut (never because of malformed data) *)
+Lemma xcut_sanity c s ka kb : XInv c s -> disciplined c s (XCut ka kb) = true ->
+  fst (xstep c s (XCut ka kb)) = ErrSanity ->
+  let s1 := deliver_n c (deliver_n c (xs s) true ka) false kb in
+  exists p, let x := restore p (get s1 p) in
+    rTip x = None /\
+    commit_of c (negb p) (c_h (rTail x) + 1)%Z (logA_of p x) (logB_of p x)
+              (fst (sign_cut p x)) (snd (sign_cut p x)) = None /\
+    commit_wf (logA_of p x) (logB_of p x) (fst (sign_cut p x)) (snd (sign_cut p x)) = true.
+Proof.
+  intros HX HD. cbn [disciplined] in HD. apply andb_true_iff in HD. destruct HD as [HD1 HD2].
+  assert (HX0 : XInv c (mkX (xs s) (lwrA s) (lwrB s))) by (destruct s; exact HX).
+  pose proof (xinv_deliver_n c true ka _ _ _ HX0 HD1) as HX1.
+  pose proof (xinv_deliver_n c false kb _ _ _ HX1 HD2) as HX2.
+  unfold xstep.
+  set (s1 := deliver_n c (deliver_n c (xs s) true ka) false kb) in *.
+  pose proof (xinv_mid c _ _ _ HX2) as HM. cbv zeta in HM.
+  set (a := restore true (pA s1)) in *. set (b := restore false (pB s1)) in *.
+  cbn [sync_msg].
+  destruct HX2 as [[I1 I2] _]. cbn [xs] in I1, I2.
+  pose proof (phase_heights c _ _ _ _ _ _ (i_ph _ _ _ _ _ _ _ I1)) as HA.
+  pose proof (phase_heights c _ _ _ _ _ _ (i_ph _ _ _ _ _ _ _ I2)) as HB.
+  pose proof (psync_cases c true false _ _ (lwrA s) HA HB) as CA.
+  pose proof (psync_cases c false true _ _ (lwrB s) HB HA) as CB.
+  cbv zeta in CA, CB. fold a b in CA, CB.
+  destruct HM as [HIM _]. cbn [xs] in HIM.
+  assert (W : forall p x' m, do_sign c p (if p then a else b) = (ErrSanity, x', m) ->
+     let x := if p then a else b in
+     rTip x = None /\
+     commit_of c (negb p) (c_h (rTail x) + 1)%Z (logA_of p x) (logB_of p x)
+               (fst (sign_cut p x)) (snd (sign_cut p x)) = None /\
+     commit_wf (logA_of p x) (logB_of p x) (fst (sign_cut p x)) (snd (sign_cut p x)) = true).
+  { intros p x' m HDS x. destruct (inv_wf c _ HIM p) as [HW _].
+    assert (EX : get {| pA := a; pB := b;
+                        qAB := mid_q (lwrA s) (sigpart true a b) (revpart a b);
+                        qBA := mid_q (lwrB s) (sigpart false b a) (revpart b a) |} p = x)
+      by (destruct p; reflexivity).
+    rewrite EX in HW. fold x in HDS. rewrite do_sign_cut in HDS.
+    destruct (rTip x); [discriminate|].
+    destruct (commit_of c (negb p) (c_h (rTail x) + 1)%Z (logA_of p x) (logB_of p x)
+                (fst (sign_cut p x)) (snd (sign_cut p x))); [discriminate|].
+    repeat split. exact HW. }
+  destruct CA as [CA|[[a' [ma [DA CA]]]|[[a' [ma DA]] CA]]]; rewrite CA;
+  destruct CB as [CB|[[b' [mb [DB CB]]]|[[b' [mb DB]] CB]]]; rewrite CB; cbn [fst snd];
+    intros HE; try discriminate.
+  - exists false. exact (W false _ _ DB).
+  - exists false. exact (W false _ _ DB).
+  - exists true. exact (W true _ _ DA).
+  - exists true. exact (W true _ _ DA).
+  - exists true. exact (W true _ _ DA).
+Qed.
+
+Lemma dreachable_ok_run c ops : forall s, dreachable_ok c s ->
+  xall_ok c s ops = true -> xall_disc c s ops = true -> dreachable_ok c (xrun c s ops).
+Proof.
+  unfold xrun. induction ops as [|o ops IH]; intros s HR HO HD; cbn [fold_left]; [exact HR|].
+  cbn [xall_ok xall_disc] in HO, HD. apply andb_true_iff in HD. destruct HD as [HD1 HD2].
+  destruct (xstep c s o) as [r s'] eqn:HS. cbn [snd] in *.
+  destruct r; try discriminate.
+  apply IH; try assumption.
+  replace s' with (snd (xstep c s o)) by (rewrite HS; reflexivity).
+  apply dro_step; try assumption. intros ka kb _. rewrite HS. reflexivity.
+Qed.
+
+Lemma reach_revoke_advances c s p : reachable c s ->
+  fst (step c s (ORevoke p)) = Ok ->
+  c_h (lTail (get (snd (step c s (ORevoke p))) p)) = (c_h (lTail (get s p)) + 1)%Z.
+Proof. intros HR. apply revoke_advances. apply inv_reachable. exact HR. Qed.
+
+Lemma reach_tail_height_monotone c s o p : reachable c s ->
+  (c_h (lTail (get s p)) <= c_h (lTail (get (snd (step c s o)) p)))%Z.
+Proof. intros HR. apply tail_height_monotone. apply inv_reachable. exact HR. Qed.
+
+(* ------------------------------------------------------------------ *)
+(* Part R7: heights only — a reconnect NEVER reports a data loss, for  *)
+(* every free (undisciplined) schedule, also after failed reconnects    *)
+
+Record WDir (xS xH : party) (qS qH : list msg) : Prop := mkWDir {
+  w_1 : forall k, rTip xS = Some k -> c_h k = (c_h (rTail xS) + 1)%Z;
+  w_2 : forall k, lTip xH = Some k ->
+        exists k', rTip xS = Some k' /\ c_h k = c_h k' /\ c_h (lTail xH) = c_h (rTail xS);
+  w_3 : c_h (lTail xH) = c_h (rTail xS) \/
+        (exists k, rTip xS = Some k /\ c_h (lTail xH) = c_h k /\ lTip xH = None);
+  w_4 : nsig qS >= 1 -> rTip xS <> None /\ c_h (lTail xH) = c_h (rTail xS) /\ lTip xH = None;
+  w_5 : nrev qH >= 1 -> nrev qH = 1 /\ exists k, rTip xS = Some k /\ c_h (lTail xH) = c_h k;
+  w_6 : nsig qS <= 1
+}.
+
+Definition WInv (s : sys) : Prop :=
+  WDir (pA s) (pB s) (qAB s) (qBA s) /\ WDir (pB s) (pA s) (qBA s) (qAB s).
+
+Lemma wdir_hts xS xH qS qH : WDir xS xH qS qH -> hts xS xH.
+Proof.
+  intros [w1 w2 w3 w4 w5 w6]. unfold hts.
+  destruct (rTip xS) as [k|] eqn:R.
+  - right. exists k. split; [reflexivity|]. split; [apply w1; reflexivity|].
+    destruct w3 as [E|[k' [R' [E _]]]]; [left; exact E|right]. congruence.
+  - left. split; [reflexivity|]. destruct w3 as [E|[k' [R' _]]]; [exact E|discriminate].
+Qed.
+
+Lemma w_ext xS xH qS qH xS' xH' qS' qH' : WDir xS xH qS qH ->
+  rTip xS' = rTip xS -> rTail xS' = rTail xS -> lTip xH' = lTip xH -> lTail xH' = lTail xH ->
+  nsig qS' = nsig qS -> nrev qH' = nrev qH -> WDir xS' xH' qS' qH'.
+Proof.
+  intros [w1 w2 w3 w4 w5 w6] E1 E2 E3 E4 E5 E6.
+  constructor; rewrite ?E1, ?E2, ?E3, ?E4, ?E5, ?E6; assumption.
+Qed.
+
+Lemma w_sign xS xH qS qH k : WDir xS xH qS qH -> rTip xS = None ->
+  c_h k = (c_h (rTail xS) + 1)%Z -> WDir (set_rTip xS (Some k)) xH (qS ++ [MSig k]) qH.
+Proof.
+  intros [w1 w2 w3 w4 w5 w6] R Hh. unfold set_rTip.
+  assert (L : lTip xH = None).
+  { destruct (lTip xH) as [k0|] eqn:L; [|reflexivity].
+    destruct (w2 k0 eq_refl) as [k' [R' _]]. congruence. }
+  assert (E : c_h (lTail xH) = c_h (rTail xS)).
+  { destruct w3 as [E|[k' [R' _]]]; [exact E|congruence]. }
+  assert (NS : nsig qS = 0).
+  { destruct (nsig qS) eqn:N; [reflexivity|]. exfalso. apply w4; [lia|exact R]. }
+  assert (NR : nrev qH = 0).
+  { destruct (nrev qH) eqn:N; [reflexivity|]. exfalso.
+    destruct w5 as [_ [k' [R' _]]]; [lia|congruence]. }
+  constructor; psimpl.
+  - intros k0 HE. inversion HE; subst. exact Hh.
+  - intros k0 HE. congruence.
+  - left. exact E.
+  - intros _. split; [discriminate|]. split; assumption.
+  - intros HN. lia.
+  - rewrite nsig_app, NS. cbn. lia.
+Qed.
+
+Lemma w_dsig xS xH q qH k0 k' : WDir xS xH (MSig k0 :: q) qH ->
+  c_h k' = (c_h (tip_of (lTail xH) (lTip xH)) + 1)%Z ->
+  WDir xS (set_lTip xH (Some k')) q qH.
+Proof.
+  intros [w1 w2 w3 w4 w5 w6] Hh. unfold set_lTip. cbn [nsig] in *.
+  destruct w4 as [R [E L]]; [lia|]. rewrite L in Hh. cbn [tip_of] in Hh.
+  assert (HK : exists k, rTip xS = Some k)
+    by (destruct (rTip xS) as [k|]; [exists k; reflexivity|congruence]).
+  destruct HK as [k RK]. pose proof (w1 k RK) as H1.
+  constructor; psimpl.
+  - exact w1.
+  - intros k1 HE. inversion HE; subst k1. exists k. split; [exact RK|]. split; [lia|exact E].
+  - left. exact E.
+  - intros HN. lia.
+  - intros HN. destruct (w5 HN) as [N1 [k1 [R1 E1]]]. exfalso.
+    assert (k1 = k) by congruence. subst k1. lia.
+  - lia.
+Qed.
+
+Lemma w_revoke xS xH qS qH k : WDir xS xH qS qH -> lTip xH = Some k ->
+  WDir xS (revoked xH k) qS (qH ++ [MRev]).
+Proof.
+  intros [w1 w2 w3 w4 w5 w6] L. unfold revoked.
+  destruct (w2 k L) as [k' [R [Hk E]]]. pose proof (w1 k' R) as H1.
+  assert (NR : nrev qH = 0).
+  { destruct (nrev qH) eqn:N; [reflexivity|]. exfalso.
+    destruct w5 as [_ [k1 [R1 E1]]]; [lia|]. assert (k1 = k') by congruence. subst k1. lia. }
+  assert (NS : nsig qS = 0).
+  { destruct (nsig qS) eqn:N; [reflexivity|]. exfalso.
+    destruct w4 as [_ [_ L']]; [lia|congruence]. }
+  constructor; psimpl.
+  - exact w1.
+  - intros k0 HE. discriminate.
+  - right. exists k'. split; [exact R|]. split; [exact Hk|reflexivity].
+  - intros HN. lia.
+  - intros _. rewrite nrev_app, NR. cbn. split; [reflexivity|]. exists k'. split; assumption.
+  - lia.
+Qed.
+
+Lemma w_drev xS xH qS q k : WDir xS xH qS (MRev :: q) -> rTip xS = Some k ->
+  WDir (recv_rev xS k) xH qS q.
+Proof.
+  intros [w1 w2 w3 w4 w5 w6] R. unfold recv_rev. cbn [nrev] in *.
+  destruct w5 as [N1 [k1 [R1 E1]]]; [lia|]. assert (k1 = k) by congruence. subst k1.
+  pose proof (w1 k R) as H1.
+  assert (L : lTip xH = None).
+  { destruct (lTip xH) as [k0|] eqn:L; [|reflexivity]. exfalso.
+    destruct (w2 k0 eq_refl) as [k' [R' [_ E]]]. lia. }
+  assert (NS : nsig qS = 0).
+  { destruct (nsig qS) eqn:N; [reflexivity|]. exfalso.
+    destruct w4 as [_ [E _]]; [lia|]. lia. }
+  constructor; psimpl.
+  - intros k0 HE. discriminate.
+  - intros k0 HE. congruence.
+  - left. exact E1.
+  - intros HN. lia.
+  - intros HN. lia.
+  - lia.
+Qed.
+
+Section Heights.
+Variable c : cfg.
+
+Ltac wext W :=
+  eapply w_ext; [exact W|..]; try reflexivity;
+  rewrite ?nsig_app, ?nrev_app; cbn [nsig nrev]; lia.
+
+Lemma winv_init s0 : init_sys c = Some s0 -> WInv s0.
+Proof.
+  unfold init_sys, init_party. cbn [negb].
+  destruct (init_commit c true) as [ka|] eqn:HA; [|discriminate].
+  destruct (init_commit c false) as [kb|] eqn:HB; [|discriminate].
+  intros HE. inversion HE; subst s0; clear HE.
+  split; constructor; cbn [pA pB qAB qBA own peer lTail lTip rTail rTip nsig nrev];
+    try (intros; discriminate); try (intros; lia); left; reflexivity.
+Qed.
+
+Lemma winv_step s o : WInv s -> WInv (snd (step c s o)).
+Proof.
+  intros [WA WB]. unfold WInv. destruct o as [p u|p|p|p]; unfold step.
+  - destruct (upd_enabled c p (get s p) u); [|split; assumption].
+    destruct p; cbn [snd get set outq set_outq pA pB qAB qBA]; split;
+      [wext WA|wext WB|wext WA|wext WB].
+  - destruct (do_sign c p (get s p)) as [[r x'] [m|]] eqn:HD;
+      destruct r; try (split; assumption).
+    apply do_sign_ok in HD. destruct HD as [k [HR [HK [-> ->]]]].
+    apply commit_of_inv in HK. destruct HK as [gA [gB [_ [_ HK]]]]. cbv zeta in HK.
+    destruct HK as [_ [_ [_ [_ [Hh _]]]]].
+    destruct p; cbn [snd get set outq set_outq pA pB qAB qBA negb] in *; split.
+    + apply w_sign; assumption.
+    + wext WB.
+    + wext WA.
+    + apply w_sign; assumption.
+  - unfold do_revoke. destruct (lTip (get s p)) as [k|] eqn:HL; [|split; assumption].
+    destruct p; cbn [snd get set outq set_outq pA pB qAB qBA negb] in *; split.
+    + wext WA.
+    + exact (w_revoke _ _ _ _ k WB HL).
+    + exact (w_revoke _ _ _ _ k WA HL).
+    + wext WB.
+  - destruct (outq s (negb p)) as [|m q] eqn:HQ; [split; assumption|].
+    destruct m as [u|k|].
+    + destruct p; cbn [snd get set outq set_outq pA pB qAB qBA negb] in *; rewrite HQ in *; split;
+        [wext WA|wext WB|wext WA|wext WB].
+    + rewrite do_recv_sig_cut.
+      destruct (commit_of c p (c_h (tip_of (lTail (get s p)) (lTip (get s p))) + 1)%Z
+                  (logA_of p (get s p)) (logB_of p (get s p))
+                  (fst (recv_cut p (get s p))) (snd (recv_cut p (get s p)))) as [k'|] eqn:HK;
+        [|split; assumption].
+      destruct (commit_eqb k' k); [|split; assumption].
+      apply commit_of_inv in HK. destruct HK as [gA [gB [_ [_ HK]]]]. cbv zeta in HK.
+      destruct HK as [_ [_ [_ [_ [Hh _]]]]].
+      destruct p; cbn [snd get set outq set_outq pA pB qAB qBA negb] in *; rewrite HQ in *; split.
+      * wext WA.
+      * exact (w_dsig _ _ _ _ k k' WB Hh).
+      * exact (w_dsig _ _ _ _ k k' WA Hh).
+      * wext WB.
+    + unfold do_recv_rev. destruct (rTip (get s p)) as [k|] eqn:HR; [|split; assumption].
+      destruct p; cbn [snd get set outq set_outq pA pB qAB qBA negb] in *; rewrite HQ in *; split.
+      * exact (w_drev _ _ _ _ k WA HR).
+      * wext WB.
+      * wext WA.
+      * exact (w_drev _ _ _ _ k WB HR).
+Qed.
+
+Lemma winv_deliver_n p n : forall s, WInv s -> WInv (deliver_n c s p n).
+Proof.
+  induction n as [|n IH]; intros s HW; cbn [deliver_n]; [exact HW|].
+  apply IH. apply winv_step. exact HW.
+Qed.
+
+Lemma nsig_diff_updates S x : nsig (diff_updates S x) = 0.
+Proof. unfold diff_updates. destruct (rTip x); [apply nsig_map|reflexivity]. Qed.
+
+Lemma nsig_mid_q f sp rp : nsig (mid_q f sp rp) = nsig sp + nsig rp.
+Proof. unfold mid_q. destruct f; rewrite nsig_app; lia. Qed.
+
+Lemma nsig_revpart a b : nsig (revpart a b) = 0.
+Proof. unfold revpart. destruct (owes_rev a b); reflexivity. Qed.
+
+Lemma w_restore S H xS xH qS qH : WDir xS xH qS qH ->
+  WDir (restore S xS) (restore H xH) [] [].
+Proof.
+  intros [w1 w2 w3 w4 w5 w6]. unfold restore. constructor; psimpl; cbn [nsig nrev].
+  - exact w1.
+  - intros; discriminate.
+  - destruct w3 as [E|[k [R [E _]]]]; [left; exact E|right; exists k; auto].
+  - lia.
+  - lia.
+  - lia.
+Qed.
+
+Lemma w_mid S H xS xH qS qH fS fH : WDir xS xH qS qH ->
+  let a := restore S xS in let b := restore H xH in
+  WDir a b (mid_q fS (sigpart S a b) (revpart a b)) (mid_q fH (sigpart H b a) (revpart b a)).
+Proof.
+  intros [w1 w2 w3 w4 w5 w6] a b.
+  assert (W3 : c_h (lTail xH) = c_h (rTail xS) \/
+               (exists k, rTip xS = Some k /\ c_h (lTail xH) = c_h k /\ @None commit = None)).
+  { destruct w3 as [E|[k [R [E _]]]]; [left; exact E|right; exists k; auto]. }
+  constructor; rewrite ?nsig_mid_q, ?nsig_revpart, ?nrev_mid_q, ?nrev_sigpart, ?nrev_revpart.
+  - exact w1.
+  - subst b. unfold restore. psimpl. intros; discriminate.
+  - exact W3.
+  - unfold sigpart, c1b. change (rTip a) with (rTip xS). change (lTail b) with (lTail xH).
+    change (rTail a) with (rTail xS). change (lTip b) with (@None commit).
+    destruct (rTip xS) as [k|]; [|cbn; lia].
+    destruct (Z.eqb_spec (c_h (lTail xH)) (c_h (rTail xS))); [|cbn; lia].
+    intros _. split; [discriminate|]. split; [assumption|reflexivity].
+  - unfold owes_rev. change (rTail a) with (rTail xS). change (lTail b) with (lTail xH).
+    destruct (Z.eqb_spec (c_h (rTail xS) + 1) (c_h (lTail xH))) as [E|E]; [|lia].
+    intros _. split; [reflexivity|].
+    destruct W3 as [E'|[k [R [E' _]]]]; [lia|]. exists k. split; assumption.
+  - unfold sigpart. destruct (rTip a); [|cbn; lia]. destruct (c1b a b); [|cbn; lia].
+    rewrite nsig_app, nsig_diff_updates. cbn. lia.
+Qed.
+
+Lemma step_sign_ok M p x' m : do_sign c p (get M p) = (Ok, x', Some m) ->
+  snd (step c M (OSign p)) = set_outq (set M p x') p (outq M p ++ [m]).
+Proof. intros HD. unfold step. rewrite HD. reflexivity. Qed.
+
+Theorem wcut s ka kb : WInv (xs s) ->
+  fst (xstep c s (XCut ka kb)) <> ErrSync /\ WInv (xs (snd (xstep c s (XCut ka kb)))).
+Proof.
+  intros HW.
+  pose proof (winv_deliver_n false kb _ (winv_deliver_n true ka _ HW)) as HW2.
+  unfold xstep.
+  set (s1 := deliver_n c (deliver_n c (xs s) true ka) false kb) in *.
+  destruct HW2 as [WA WB].
+  pose proof (w_mid true false _ _ _ _ (lwrA s) (lwrB s) WA) as MA.
+  pose proof (w_mid false true _ _ _ _ (lwrB s) (lwrA s) WB) as MB.
+  pose proof (w_restore true false _ _ _ _ WA) as RA.
+  pose proof (w_restore false true _ _ _ _ WB) as RB.
+  cbv zeta in MA, MB.
+  pose proof (psync_cases c true false _ _ (lwrA s) (wdir_hts _ _ _ _ WA) (wdir_hts _ _ _ _ WB)) as CA.
+  pose proof (psync_cases c false true _ _ (lwrB s) (wdir_hts _ _ _ _ WB) (wdir_hts _ _ _ _ WA)) as CB.
+  cbv zeta in CA, CB.
+  set (a := restore true (pA s1)) in *. set (b := restore false (pB s1)) in *.
+  cbn [sync_msg].
+  set (QA := mid_q (lwrA s) (sigpart true a b) (revpart a b)) in *.
+  set (QB := mid_q (lwrB s) (sigpart false b a) (revpart b a)) in *.
+  assert (HM : WInv (mkSys a b QA QB)) by (split; assumption).
+  assert (HR : WInv (mkSys a b [] [])) by (split; assumption).
+  destruct CA as [CA|[[a' [ma [DA CA]]]|[_ CA]]]; rewrite CA;
+  destruct CB as [CB|[[b' [mb [DB CB]]]|[_ CB]]]; rewrite CB; cbn [fst snd xs];
+    (split; [discriminate|]); try exact HR.
+  - exact HM.
+  - pose proof (winv_step _ (OSign false) HM) as HS.
+    rewrite (step_sign_ok (mkSys a b QA QB) false b' mb DB) in HS. exact HS.
+  - pose proof (winv_step _ (OSign true) HM) as HS.
+    rewrite (step_sign_ok (mkSys a b QA QB) true a' ma DA) in HS. exact HS.
+  - pose proof (winv_step _ (OSign true) HM) as HS.
+    rewrite (step_sign_ok (mkSys a b QA QB) true a' ma DA) in HS.
+    match type of HS with WInv ?M1 => pose proof (winv_step M1 (OSign false) HS) as HS2;
+      rewrite (step_sign_ok M1 false b' mb DB) in HS2 end.
+    exact HS2.
+Qed.
+
+Lemma xstep_xop_xs s o : xs (snd (xstep c s (XOp o))) = snd (step c (xs s) o).
+Proof.
+  unfold xstep. destruct (step c (xs s) o) as [r s']. destruct r, o; try destruct p; reflexivity.
+Qed.
+
+Lemma winv_xstep s o : WInv (xs s) -> WInv (xs (snd (xstep c s o))).
+Proof.
+  intros HW. destruct o as [o|ka kb].
+  - rewrite xstep_xop_xs. apply winv_step. exact HW.
+  - apply wcut. exact HW.
+Qed.
+
+Lemma winv_xrun ops : forall s, WInv (xs s) -> WInv (xs (xrun c s ops)).
+Proof.
+  unfold xrun. induction ops as [|o ops IH]; intros s HW; cbn [fold_left]; [exact HW|].
+  apply IH. apply winv_xstep. exact HW.
+Qed.
+
+Lemma xreachable_winv s : xreachable c s -> WInv (xs s).
+Proof.
+  intros [s0 [ops [H0 ->]]]. apply winv_xrun. unfold xinit in H0.
+  destruct (init_sys c) as [s'|] eqn:HI; [|discriminate]. inversion H0; subst s0.
+  cbn [xs]. apply winv_init. exact HI.
+Qed.
+
+Lemma free_no_sync_error s ka kb : xreachable c s -> fst (xstep c s (XCut ka kb)) <> ErrSync.
+Proof. intros HR. apply wcut. apply xreachable_winv. exact HR. Qed.
+
+Lemma dreachable_xreachable s : dreachable c s -> xreachable c s.
+Proof.
+  induction 1 as [s0 H0|s o HR IH HD].
+  - exists s0, []. split; [exact H0|reflexivity].
+  - destruct IH as [s0 [ops [H0 ->]]]. exists s0, (ops ++ [o]). split; [exact H0|].
+    unfold xrun. rewrite fold_left_app. reflexivity.
+Qed.
+
+Lemma dreachable_no_sync_error s ka kb : dreachable c s -> fst (xstep c s (XCut ka kb)) <> ErrSync.
+Proof. intros HR. apply free_no_sync_error. apply dreachable_xreachable. exact HR. Qed.
+
+End Heights.
